@@ -163,4 +163,14 @@ def check_instance(inst, wd, workers=8, timeout=900, replay=True):
             res["drift_judged"] = len(res["drift_samples"])
             res["impl_panics"] = rr["panics"]
     res["wall_s"] = round(time.time() - t0, 1)
+    # the TLC output and the edge list have one line per model transition (hundreds of MB per instance): drop them once
+    # the probes are extracted and the edges replayed (KVERIF_KEEP=1 keeps them for debugging)
+    if not os.environ.get("KVERIF_KEEP"):
+        for k in ("tlc_out", "edges_file"):
+            f = res.get(k)
+            if f and os.path.exists(f):
+                try:
+                    os.remove(f)
+                except OSError:
+                    pass
     return res
